@@ -222,6 +222,11 @@ class DocModel:
     def rename(self, uid, name):
         self.by_uid[tuple(uid)].name = name
 
+    def rename_sheet(self, si, name):
+        for t in self.tables:
+            if t.sheet == si:
+                t.sheet_name = name
+
     def set_headers(self, uid, axis, n):
         t = self.by_uid[tuple(uid)]
         if axis == "row":
